@@ -81,6 +81,29 @@ def waitForEvent (waiters : List Waiter) (wid ty : Nat) (waiterEv : Option Ev) (
       | none => .waiting (.addWaiter wid waiterEv req timeout ty)
   | none => .waiting (.addWaiter wid waiterEv req timeout ty)
 
+/-! ### the default waiter id
+
+`waiter_id = waiter_id or f"waiter_{module}.{name}_{str(requirements)}"`: without an explicit id the waiter is named after
+the awaited class and the text of the WHOLE requirements dict (keys and values).  Waiter names are abstracted to numbers;
+for the default names that abstraction is a table (awaited type, requirement) ↦ number supplied with the run (the harness
+numbers the names it can meet, in string order, from the documented format — `harness/engine/enc.py`). -/
+
+abbrev AutoIds := List ((Nat × Option Nat) × Nat)
+
+def AutoIds.lookup (t : AutoIds) (ty : Nat) (req : Option Nat) : Option Nat :=
+  (t.find? (fun p => p.1 == (ty, req))).map (·.2)
+
+/-- the table names different waits differently -/
+def AutoIds.wellFormed (t : AutoIds) : Bool := decide ((t.map (·.2)).Nodup)
+
+/-- `ctx.wait_for_event(...)` with `waiter_id=None` allowed: the id the call works with, and its outcome (`none`: the
+naming has no entry for this request) -/
+def waitForEventAuto (ids : AutoIds) (waiters : List Waiter) (wid : Option Nat) (ty : Nat) (waiterEv : Option Ev)
+    (req : Option Nat) (timeout : Option Nat) : Option (Nat × WaitOut) :=
+  match wid with
+  | some w => some (w, waitForEvent waiters w ty waiterEv req timeout)
+  | none => (ids.lookup ty req).map fun w => (w, waitForEvent waiters w ty waiterEv req timeout)
+
 def WaitOut.results (wid : Nat) : WaitOut → List Res
   | .timeout => [.deleteWaiter wid]
   | .waiting a => [a]
